@@ -145,6 +145,8 @@ def scripted(env: Env, hid: str, script: list[Outcome], *, cursor: str | None = 
             rec['diff'] = [tuple(d) for d in (kw.get('diff') or ())]
         if 'type' in kw and 'event' in kw:
             rec['etype'] = kw['type']
+            # the watch event itself, as it came off the wire (the `body` kwarg is what the framework made of it)
+            rec['evraw'] = _plain((kw['event'] or {}).get('object')) if isinstance(kw['event'], dict) or hasattr(kw['event'], 'get') else None
         if extra is not None:
             rec.update(extra(**kw))
         from kv.vloop import OPID
